@@ -175,6 +175,21 @@ def c04(res, tier, seed):
         text = cg.show(ast)[0]
         groups.append({"src": rule_text(text), "bufs": bufs, "pre": EXT_DEFS})
         metas.append((text, ast))
+    # `N of <set> in (lo..hi)`: every quantifier x ranges whose lower bound is exactly where a string matches, a string matching
+    # several times inside the range, fewer distinct strings in the range than the quantifier asks for
+    of_bufs = [b"#1#.....#1#", b".#1#..#1#...#1#", b"#1#+2+#1#", b"#1##1#", b"...#1#.....=3=", b"+2+#1#+2+..#1#", b""]
+    nof = 0
+    for q in (("all", None), ("any", None), ("none", None), ("n", 1), ("n", 2), ("n", 3), ("pct", 50)):
+        for lo in (0, 1, 3):
+            for hi in (5, 8, 11, 14):
+                for sset in (["$_a", "$_b"], ["$_a", "$_b", "$_c"], ["$_a"]):
+                    if tier == "quick" and r.random() < 0.6:
+                        continue
+                    e = {"t": "ofin", "q": q[0], "set": list(sset), "lo": {"t": "int", "v": lo}, "hi": {"t": "int", "v": hi}}
+                    if q[1] is not None: e["qv"] = {"t": "int", "v": q[1]}
+                    text = cg.show(e)[0]
+                    groups.append({"src": rule_text(text), "bufs": of_bufs, "pre": EXT_DEFS}); metas.append((text, e)); nof += 1
+    res.cov["parts"]["of_in_range_family"] = nof
     records, owners = make_records(res, "C04", groups, metas, wd, "c04")
     judge_and_report(res, "C04", records, owners, lambda o: {"condition": o[0], "buf": o[1], "verdict": o[2], "matches": o[3]}, wd, "c04")
     for o in owners[:4]:
